@@ -68,10 +68,12 @@ def framing1(fr, data):
         return b"Transfer-Encoding: chunked\r\n", w, data, None
     if fr == "chunked2":
         k = max(1, len(data) // 2)
-        w = b"%x;ext=1\r\n" % k + data[:k] + b"\r\n"
+        # a long extension on the first chunk (the response side probes a chunk-size line once 8 bytes of it lie in the current data chunk),
+        # a short one on the second and on the last-chunk line
+        w = b"%x;name=value-of-the-extension\r\n" % k + data[:k] + b"\r\n"
         if len(data) > k:
-            w += b"%X\r\n" % (len(data) - k) + data[k:] + b"\r\n"
-        w += b"0\r\nX-Trailer: t\r\n\r\n"
+            w += b"%X;e=1\r\n" % (len(data) - k) + data[k:] + b"\r\n"
+        w += b"0;last=\"yes, the last one\"\r\nX-Trailer: t\r\n\r\n"
         return b"Transfer-Encoding: chunked\r\n", w, data, None
     if fr == "close":
         return b"", data, data, len(data)
